@@ -951,6 +951,11 @@ class Engine:
         return self.bind(self.ev(node.value, st), after)
 
     def getattr(self, v, name, st):
+        if isinstance(v, Fn):
+            fa = st.ghost.get("__fn_attrs") or {}
+            if (id(v), name) in fa:
+                return [(fa[(id(v), name)], st)]
+            return [(Raise(Exc("AttributeError", "'function' object has no attribute %r" % name)), st)]
         tv = pytype_name(v)
         if tv == "str":
             if name in self.STR_METHODS:
@@ -1522,6 +1527,13 @@ class Engine:
                     s.ghost["__opq_attrs"] = ov
                     s.log.append({"callee": "<setattr>", "args": [o, tgt.attr, v], "kwargs": {}, "result": None, "effect": False})
                     self.assumed.add("attribute writes on opaque objects: visible to later reads through the same term only (other terms: undecided)")
+                    return [("ok", None, s)]
+                if isinstance(o, Fn):
+                    # an attribute of a function object created by the code under verification (`f.flag = False` on a nested def): per-path state,
+                    # keyed by the function object (one per activation of the enclosing function)
+                    fa = dict(s.ghost.get("__fn_attrs") or {})
+                    fa[(id(o), tgt.attr)] = v
+                    s.ghost["__fn_attrs"] = fa
                     return [("ok", None, s)]
                 raise Unsupported("attribute store on %r" % (o,))
 
